@@ -195,7 +195,10 @@ CHECKS = {
              'early outgoing listeners that may suppress the write, ordinary outgoing listeners, IgnorePacket, filters over a class '
              'poset (superclass and multi-type filters), in login and play states, with packets arriving one at a time or in one read '
              'batch (answers then flush later or during disconnect). TLC checks NoDoubleCall, OnlyMatching, OrderWithinPacket, '
-             'IgnoreStops on all configurations with <= 1 listener per list; thousands of behaviours are replayed against the real '
+             'IgnoreStops, ReactionBetweenStages (every log entry records whether the reaction\'s effect - answer handed to '
+             'write_packet, compression switched on, reactor switched, socket closed - was visible to the listener: never to an early '
+             'one, always to an ordinary one) and IgnoredNeverReacts on all configurations with <= 1 listener per list, incl. a '
+             'set-compression packet kind and a final forced user write; thousands of behaviours are replayed against the real '
              'code with the registration order shuffled across lists and the exact call log and the answers the peer saw compared; '
              'random configurations with up to 3 listeners per list are judged by TLC running the model from the recorded configuration.',
         note='Trusted: TLC, virtual socket layer, peer codec. Listeners are registered while the networking thread is idle.',
@@ -226,7 +229,9 @@ CHECKS = {
              'JoinOnlyOnlineWithToken and termination. Each behaviour runs against the real client at versions either side of '
              '385/391/707: the peer recovers secret and token with the private key, switches its own cipher and envelope at the '
              'byte where the protocol says so (any deviation garbles the stream), checks the join hash, and the frames, modes, '
-             'join calls and surfaced exception are compared with the model and validated event by event by the contract in TLC.',
+             'join calls and surfaced exception are compared with the model and validated event by event by the contract in TLC. '
+             'Runs of plugin requests are sent one at a time and back to back; disconnect reasons cover JSON objects, bare JSON '
+             'strings / arrays / null / numbers and non-JSON text.',
         note='Trusted: TLC, virtual socket layer, peer codec, cryptography package for RSA and the AES block, hashlib for the join '
              'hash oracle (C17 checks that against TLA+). Thresholds 0,1,64,256,2^31-1 with user-handler payloads sized '
              'thr-1/thr/thr+1.',
@@ -257,7 +262,9 @@ CHECKS = {
              'evaluated by the code on all ordered pairs of known protocols, must be exactly the strict / non-strict order of '
              'first-occurrence ranks; in_range is checked against those validated relations. Versions.tla models extension of '
              'the records, direct extension of the supported map and both re-initialisation modes; TLC checks the projection '
-             'invariants and idempotence on all histories and every reachable state is replayed into minecraft/__init__.py.',
+             'invariants and idempotence on all histories and every reachable state is replayed into minecraft/__init__.py; after '
+             'every full re-initialisation the predicates are re-evaluated through utility, through fresh ConnectionContext objects '
+             'and through contexts that existed before the extension, and a Connection is constructed.',
         note='Trusted: TLC, JSON hand-over, the release-name regular expression re-stated in the harness. Dynamic part over a '
              '3-record base list and a pool of 6 extensions (<= 3 / 4 operations).',
         design='5/C08'),
